@@ -33,9 +33,16 @@ def lfp(fields, specs, doc):
             elif s['kind'] == 'const':
                 val[f] = s['v']
                 progress = True
+            elif s['kind'] == 'indirect':
+                if s['dep'] in val:
+                    val[f] = 1
+                    progress = True
             elif s['kind'] == 'sum':
                 if all(d in val for d in s['deps']):
-                    val[f] = 1 + sum(val[d] for d in s['deps'])
+                    if any(isinstance(val[d], bool) or not isinstance(val[d], int) for d in s['deps']):
+                        failed_own.add(f)           # TypeError: an error for this field only
+                    else:
+                        val[f] = 1 + sum(val[d] for d in s['deps'])
                     progress = True
     unresolved = set(f for f in fields if f not in val)
     return val, unresolved
@@ -78,6 +85,8 @@ def one(ctx, drv, order, specs, doc):
             s = dict(specs[f])
             if 'deps' in s:
                 s['deps'] = [codec.enc_key(k) for k in s['deps']]
+            if 'dep' in s:
+                s['dep'] = codec.enc_key(s['dep'])
             if 'v' in s:
                 s['v'] = codec.enc_val(s['v'])
             jspecs.append([codec.enc_key(f), s])
@@ -92,7 +101,7 @@ def one(ctx, drv, order, specs, doc):
                 ctx.port_mismatch('setters', jcase, {'mapping': mres, 'failed': mfailed},
                                   {'mapping': res, 'failed': failed})
             ctx.dist('model_steps', min(rep['steps'], 30))
-    nontrivial = any(s['kind'] == 'sum' and s['deps'] for s in specs.values())
+    nontrivial = any((s['kind'] == 'sum' and s['deps']) or s['kind'] == 'indirect' for s in specs.values())
     key = (tuple(map(repr, order)), repr(sorted(specs.items(), key=repr)), repr(sorted(doc.items(), key=repr)))
     ctx.count('setters', key=key, nontrivial=nontrivial,
               sample={'order': list(map(repr, order)), 'specs': {repr(k): v for k, v in specs.items()},
@@ -107,12 +116,14 @@ def random_case(rng, nmax=6):
     specs = {}
     for f in fields:
         x = rng.random()
-        if x < 0.7:
+        if x < 0.62:
             specs[f] = {'kind': 'sum', 'deps': rng.sample(fields, rng.randint(0, min(3, n)))}
-        elif x < 0.8:
+        elif x < 0.72:
             specs[f] = {'kind': 'raise'}
-        elif x < 0.9:
-            specs[f] = {'kind': 'const', 'v': rng.choice([0, 5])}
+        elif x < 0.86:
+            specs[f] = {'kind': 'indirect', 'dep': rng.choice(fields)}
+        elif x < 0.93:
+            specs[f] = {'kind': 'const', 'v': rng.choice([0, 5, None, None])}
         else:
             specs[f] = {'kind': 'sum', 'deps': [rng.choice(NAMES)]}   # possibly a field outside the schema
     present = [f for f in fields if rng.random() < 0.25]
@@ -143,6 +154,11 @@ def run(ctx, n):
         one(ctx, drv, [-1, -2, 'c'], {-1: {'kind': 'sum', 'deps': [-2]}, -2: {'kind': 'sum', 'deps': ['c']},
                                        'c': {'kind': 'const', 'v': 1}}, {})
         one(ctx, drv, ['a', 'b'], {'a': {'kind': 'sum', 'deps': ['b']}, 'b': {'kind': 'sum', 'deps': ['a']}}, {})
+        # an input read through a table (the KeyError names no field); a setter that yields None
+        one(ctx, drv, ['a', 'b', 'c'], {'a': {'kind': 'indirect', 'dep': 'b'}, 'b': {'kind': 'indirect', 'dep': 'c'},
+                                        'c': {'kind': 'const', 'v': 1}}, {})
+        one(ctx, drv, ['a', 'b', 'c'], {'a': {'kind': 'indirect', 'dep': 'b'}, 'b': {'kind': 'const', 'v': None},
+                                        'c': {'kind': 'sum', 'deps': ['b']}}, {})
         if ctx.tier == 'thorough':
             for nf in (1, 2, 3):
                 for fields, specs, doc in exhaustive(nf):
